@@ -80,7 +80,11 @@ impl Worker {
 
                     println!("Worker {} got a job; executing.", id);
 
-                    job();
+                    // a job that panics must not take the worker with it
+                    let boxed_job_result = std::panic::catch_unwind(std::panic::AssertUnwindSafe(job));
+                    if boxed_job_result.is_err() {
+                        eprintln!("Worker {} -> job panicked, worker keeps serving", id);
+                    }
                     #[cfg(rws_verif)]
                     crate::verif_hooks::point("pool.worker.job_finished");
                 }
